@@ -34,6 +34,155 @@ def type_check_fn(ctx):
                           pick=lambda h: len(h.node.args.args) == 2)
 
 
+def create_property_table(M, rep, R):
+    """Section.create_property(name, <list of values>): a list of one type is created, a mixed list is refused BEFORE the
+    property is created (a refusal by the value setter afterwards would leave a half-made property behind). The decision
+    table of create_property up to the creation (two unrolled elements; the creation and the value setter are opaque) is
+    evaluated on value lists. Shared with C12."""
+    from nixsa.dtable import TermEval, NOTHING, Unknown
+    c3 = Ctx(M, coarse=False, unroll=2)
+    c3.cfg.compose = False
+    f = c3.member("Section", "create_property")
+    cn_ = c3.member("Property", "create_new")
+    vs = c3.member("Property", "values", "setters")
+    gd = c3.member("DataType", "get_dtype")
+    if f is None or cn_ is None or gd is None:
+        rep.bad(R, "Section.create_property", "required mechanism not found")
+        return
+    c3.cfg.opaque[cn_.qual] = ("obj", "Property")
+    c3.cfg.opaque[gd.qual] = ("py", "type")
+    if vs is not None:
+        c3.cfg.opaque[vs.qual] = ("const", None)
+    try:
+        paths = c3.paths(f, "Section", max_paths=40000)
+    except Budget:
+        raise AnalysisError("C10: too many abstract paths in Section.create_property (unroll 2)")
+
+    def pytype(v):
+        return "Bool" if isinstance(v, bool) else "Int64" if isinstance(v, int) else "Double" if isinstance(v, float) else \
+            "String" if isinstance(v, str) else None
+    for data in ([1, 2], [1, 2.5], [2.5, 1], [1, "a"], ["a", 1], [True, 1], [1, True], ["a", "b"], [1.5, 2.5], [True, False], [1.5, True]):
+        want_ok = len({pytype(x) for x in data}) == 1
+
+        def leaf(t, data=data):
+            if t == ("param", "values_or_dtype"):
+                return data
+            if t == ("param", "copy_from") or t == ("param", "oid"):
+                return None
+            if t == ("param", "name"):
+                return "p"
+            if t[0] == "elem" and t[1] == ("param", "values_or_dtype"):
+                return data[t[2]] if t[2] < len(data) else NOTHING
+            if t[0] in ("call", "ocall") and isinstance(t[1], str) and t[1] == gd.qual:
+                return NOTHING
+            return NOTHING
+
+        def value_of(t, data=data):
+            # the python value a term stands for, if it is the list or one of its elements
+            if t == ("param", "values_or_dtype"):
+                return data
+            if t and t[0] in ("elem", "idx", "sub") and len(t) > 2 and t[1] == ("param", "values_or_dtype"):
+                k = t[2] if isinstance(t[2], int) else (t[2][1] if t[2] and t[2][0] == "const" else None)
+                if isinstance(k, int) and k < len(data):
+                    return data[k]
+            raise KeyError(t)
+
+        def atomfn(a, data=data):
+            if a[0] == "iter":
+                return a[2] < len(data)
+            if a[0] == "in" and a[1] == ("param", "name"):
+                return False            # the name is free
+            if a[0] == "truthy" and a[1] and a[1][0] == "rd" and a[1][1] == "child":
+                return False            # the name is free
+            if a[0] in ("oraise", "lraise", "xraise", "rraise"):
+                return False            # the representatives are plain bool/int/float/str values: nothing else fails
+            if a[0] == "truthy" and a[1] == ("param", "copy_from"):
+                return False
+            if a[0] == "isinst" and a[1] == ("param", "values_or_dtype"):
+                return ("Sequence" in a[2] or "Iterable" in a[2] or "list" in a[2]) and "type" != a[2].split(":")[-1]
+            if a[0] in ("eq", "cmp"):
+                sides = (a[1], a[2]) if a[0] == "eq" else (a[2], a[3])
+                ts = []
+                for sd in sides:
+                    if sd and sd[0] == "call" and sd[1] == gd.qual and sd[2]:
+                        try:
+                            ts.append(pytype(value_of(sd[2][0])))
+                        except KeyError:
+                            return NOTHING
+                    else:
+                        return NOTHING
+                same = ts[0] == ts[1]
+                if a[0] == "eq":
+                    return same
+                return same if a[1] == "==" else (not same) if a[1] == "!=" else NOTHING
+            return NOTHING
+        te = TermEval(leaf, atomfn=atomfn)
+        hit = []
+        for p in paths:
+            ok = True
+            for a, v in p.decisions:
+                try:
+                    r = te.atom(a)
+                except Unknown as e:
+                    raise AnalysisError("C10: create_property depends on an unmodelled condition %s (%s)" % (show(a)[:140], e))
+                except (TypeError, IndexError, AttributeError, KeyError):
+                    ok = False
+                    break
+                if r != v:
+                    ok = False
+                    break
+            if ok:
+                hit.append(p)
+        key = "create_property('p', %r)" % (data,)
+        if not hit:
+            rep.bad(R, key, "no row of create_property's decision table applies to %r" % (data,), site=f.file)
+            continue
+        created = [p for p in hit if any(e.kind == "ocall" and e.op == cn_.qual for e in p.events)]
+        if vs is not None:
+            unset = [p for p in created if p.normal and not any(e.kind == "ocall" and e.op == vs.qual for e in p.events)]
+            if unset:
+                rep.bad(R, key + "/values stored", "create_property returns a property whose values were never assigned",
+                        site=f.file + ":%d" % f.node.lineno, detail=describe_path(unset[0], 30))
+        refused = [p for p in hit if p.terminal[0] == "raise" and not any(e.kind == "ocall" and e.op == cn_.qual for e in p.events)]
+        if want_ok:
+            rep.check(R, key, bool(created) and not refused, "a list of one type is refused", site=f.file + ":%d" % f.node.lineno)
+        else:
+            rep.check(R, key, bool(refused) and not created,
+                      "the mixed list %r reaches the creation of the property: the refusal then comes from the value setter, after the "
+                      "property exists -- the refused call leaves a property behind" % (data,), site=f.file + ":%d" % f.node.lineno,
+                      detail=describe_path(created[0], 30) if created else None)
+
+
+def create_property_assigns(M, rep, R):
+    """every normal path of create_property that creates a property also assigns its values -- unconditionally: a property
+    created from a bare DataType is resized from the placeholder extent to empty by that assignment"""
+    c3 = Ctx(M, coarse=False)
+    c3.cfg.compose = False
+    f = c3.member("Section", "create_property")
+    cn_ = c3.member("Property", "create_new")
+    vs = c3.member("Property", "values", "setters")
+    if f is None or cn_ is None or vs is None:
+        rep.bad(R, "Section.create_property/assign", "required mechanism not found")
+        return
+    c3.cfg.opaque[cn_.qual] = ("obj", "Property")
+    c3.cfg.opaque[vs.qual] = ("const", None)
+    bad = None
+    n = 0
+    for p in c3.paths(f, "Section", max_paths=40000):
+        if not p.normal:
+            continue
+        cr = [e for e in p.events if e.kind == "ocall" and e.op == cn_.qual]
+        if not cr:
+            continue
+        n += 1
+        if not any(e.kind == "ocall" and e.op == vs.qual and e.idx > cr[0].idx for e in p.events):
+            bad = p
+    rep.check(R, "Section.create_property/assign", bad is None and n > 0,
+              "a path creates the property without assigning its values: the placeholder extent the data set was created with stays "
+              "(a property created from a DataType alone reads back fill values)", site=f.file + ":%d" % f.node.lineno,
+              detail=describe_path(bad, 30) if bad else None)
+
+
 def run(M, rep, tier, only=None):
     ctx = Ctx(M, coarse=False)
     ctx.cfg.compose = False
@@ -422,6 +571,12 @@ def run(M, rep, tier, only=None):
     n = stateless.run(M, rep, R6, only_classes={"Section", "Property"})
     if not n:
         rep.bad(R6, "Section/Property", "required mechanism not found: no handle caches at all")
+
+
+    R7 = rep.rule("C10.R7", "create_property: a list of one type is created, a mixed list is refused before anything is created", floor=8,
+                  technique="decision-table extraction (two unrolled elements) evaluated on value lists")
+    create_property_table(M, rep, R7)
+    create_property_assigns(M, rep, R7)
 
 
 def w_slc(e):
